@@ -1123,6 +1123,17 @@ Section Verifier.
   Qed.
 End Verifier.
 
+(* merge_roots exactly as append_root calls it: fuel S (length roots) *)
+Corollary merge_roots_returns (cr : crypto) (roots : list node) (n : node) (nr : list node) (it : fiter) :
+  merge_roots cr (S (length roots)) (n :: rev roots) nr it <> OutOfFuel /\
+  (lens roots + n_length n <= u64_max ->
+   returns (merge_roots cr (S (length roots)) (n :: rev roots) nr it) = true).
+Proof.
+  destruct (merge_roots_spec cr (S (length roots)) (n :: rev roots) nr it) as (M1 & M2 & _);
+    [cbn [length]; rewrite rev_length; lia | lia |].
+  split; [exact M1|]. intros H. apply M2. rewrite lens_cons, lens_rev. lia.
+Qed.
+
 (* ---------- 8. prover side, block-only requests ---------- *)
 
 Lemma iwf_parent_sibling (t : fiter) : iwf t -> it_parent (it_sibling t) = it_parent t.
@@ -1265,14 +1276,15 @@ Proof.
     try discriminate R; cbn [bind]; [|reflexivity].
   destruct (P sub eq_refl) as (k & K1 & K2 & K3).
   apply returns_bind.
-  - unfold block_and_seek_proof. cbn [ix_index ix_value].
+  - apply returns_bind; [|intros p _; reflexivity].
+    unfold block_and_seek_proof. cbn [ix_index ix_value].
     destruct (negb (it_contains (it_new sub) i0)); [reflexivity|]. cbn [bind].
     apply returns_bind.
     + apply (block_proof_loop_spec t tf i0 C head CLIMB k); try assumption.
       pose proof LIM_u64_prover. unfold i0, C, NODE_SIZE in *. lia.
     + intros [p' l] _. reflexivity.
-  - intros p _. cbn [bind negb].
-    destruct (lp_nodes p); cbn [bind]; reflexivity.
+  - intros [[st p] un] _. cbn [bind negb].
+    destruct un; cbn [bind]; destruct (lp_nodes p); cbn [bind]; reflexivity.
 Qed.
 
 (* ---------- non-vacuity: the premises are satisfiable and the Ok paths are exercised ---------- *)
@@ -1373,6 +1385,17 @@ Example verify_upgrade_no_panic_ex :
   end.
 Proof. ex. Qed.
 
+Definition ex_tree2 : mtree :=
+  mkTree [mkNode 1 8 h9] 2 8 0 None
+    (nm_set 0 (mkNode 0 3 h9) (nm_set 1 (mkNode 1 8 h9) (nm_set 2 (mkNode 2 5 h9) nm_empty))).
+
+Example create_block_proof_returns_ex :
+  let b := mkReqBlock 0 1 in
+  rb_index b < LIM /\ t_length ex_tree2 < LIM /\
+  create_valueless_proof ex_tree2 file_empty (Some b) None None None =
+    Ok (mkVproof 0 (Some (mkDataHash 0 [mkNode 2 5 h9])) None None None).
+Proof. ex. Qed.
+
 Print Assumptions q_shift_returns.
 Print Assumptions q_shift_ok.
 Print Assumptions climb_returns.
@@ -1399,3 +1422,7 @@ Print Assumptions required_node_returns.
 Print Assumptions verify_proof_returns.
 Print Assumptions verify_proof_no_panic.
 Print Assumptions proof_upgrade_ok_of_lim.
+Print Assumptions nodes_to_root_loop_spec.
+Print Assumptions block_proof_loop_spec.
+Print Assumptions create_block_proof_returns.
+Print Assumptions merge_roots_returns.
